@@ -120,10 +120,10 @@ U_ALL = {'err', 'ret', 'post', 'ctr', 'oracle'}
 
 prop('C01',
      modules=['WitnessVerif.Props.C01'],
-     scenarios=lambda tier: hist_scenarios(tier) + [sc('lib'), sc('fault'), sc('conc')],
-     diverge={'U': {'accept', 'post', 'oracle'}, 'VC': None},
+     scenarios=lambda tier: hist_scenarios(tier) + [sc('lib'), sc('fault'), sc('conc'), sc('bastion')],
+     diverge={'U': {'accept', 'post', 'oracle'}, 'VC': None, 'H': {'post'}},
      nontrivial=lambda u: u.get('pre') not in ('-', None) and u.get('err') not in ('unknownLog', 'noValidSig'),
-     rule='histories of Witness.Update against forking logs (explicit trees of 20 leaves with forks at 0,1,4,8,9; virtual piecewise-uniform trees up to 2^63) on in-memory, SQLite :memory: and SQLite file storage; monitor: cosigned checkpoints of a log have non-decreasing sizes, equal sizes equal roots, and never lie on two different branches of the ground-truth trees; the same monitor over histories with injected storage faults followed by fault-free steps, and (pairwise) over the checkpoints cosigned within each controlled concurrent execution; non-trivial = a checkpoint is stored and the request authenticates',
+     rule='(also: sessions of add-checkpoint requests at the bastion endpoint — forks, stale and wrong old sizes, malformed and rate-limited bodies — with the same monitor on every 200 and the state after each request compared with Bastion.post, the step of the session the theorem C01_append_only_through_endpoint is about) histories of Witness.Update against forking logs (explicit trees of 20 leaves with forks at 0,1,4,8,9; virtual piecewise-uniform trees up to 2^63) on in-memory, SQLite :memory: and SQLite file storage; monitor: cosigned checkpoints of a log have non-decreasing sizes, equal sizes equal roots, and never lie on two different branches of the ground-truth trees; the same monitor over histories with injected storage faults followed by fault-free steps, and (pairwise) over the checkpoints cosigned within each controlled concurrent execution; non-trivial = a checkpoint is stored and the request authenticates',
      assumptions=['collision-free node hasher (Inj H) in the theorems; SHA-256 in the executions'],
      exhaustive=True)
 
